@@ -16,15 +16,22 @@ pub struct Item {
     pub gen: String,
     /// explore this item with texts of N + n_extra bytes
     pub n_extra: usize,
+    /// the tree the pattern was printed from (generated, not parsed): the parser must rebuild it
+    pub expected: Option<std::sync::Arc<crate::Expr>>,
     /// second pattern for twin-program properties (C03 injection, C19 respelling, ...)
     pub variant: Option<String>,
     pub note: String,
 }
 
 impl Item {
+    pub fn from_tree(e: crate::Expr, p: &str, gen: &str) -> Item {
+        let mut it = Item::new(p, gen);
+        it.expected = Some(std::sync::Arc::new(e));
+        it
+    }
     pub fn new(p: &str, gen: &str) -> Item {
         let n_extra = if gen == "compile-matrix" || gen == "witness" || gen == "alt-order" { 1 } else { 0 };
-        Item { pattern: p.to_string(), gen: gen.to_string(), n_extra, variant: None, note: String::new() }
+        Item { pattern: p.to_string(), gen: gen.to_string(), n_extra, expected: None, variant: None, note: String::new() }
     }
 }
 
@@ -232,9 +239,9 @@ impl<'a> Gen<'a> {
     }
 
     fn quant(&mut self) -> &'static str {
-        let mut pool: Vec<&'static str> = vec!["?", "*", "+", "{2}", "{1,2}", "{0,2}", "{2,}"];
+        let mut pool: Vec<&'static str> = vec!["?", "*", "+", "{2}", "{1,2}", "{0,2}", "{2,}", "?", "*", "+", "{1}", "{0,1}", "{1,}", "{0,}", "{0}"];
         if self.has(F_LAZY) {
-            pool.extend_from_slice(&["??", "*?", "+?", "{1,2}?", "{2,}?"]);
+            pool.extend_from_slice(&["??", "*?", "+?", "{1,2}?", "{2,}?", "{1}?", "{2}?", "{0,1}?", "{1,}?"]);
         }
         if self.has(F_POSSESSIVE) {
             pool.extend_from_slice(&["?+", "*+", "++"]);
@@ -481,8 +488,8 @@ pub fn fill(ctx: &str, filler: &str, filler_is_alt: bool) -> String {
 /// hard = false to its body) x (repeat lowering) x (hard element followed by an easy,
 /// variable-size tail).  Every combination is a corpus item.
 pub fn compile_matrix(full: bool) -> Vec<String> {
-    let ctxs: &[&str] = if full { &["(?>X)", "(?=X)a", "(?!X)a", "(X)", "X", "(?>X)b", "Xb", "(?:X|c)\\b"] } else { &["(?>X)", "(?=X)a", "(X)", "X", "(?>X)b", "Xb"] };
-    let quants: &[&str] = if full { &["{2}", "{1,2}", "{2,}", "*", "+", "?", "*?", "{2}?", "{1,2}?"] } else { &["{2}", "{1,2}", "*", "+", "?", "{2}?", "{1,2}?"] };
+    let ctxs: &[&str] = if full { &["(?>X)", "(?=X)a", "(?!X)a", "(X)", "X", "(?>X)b", "Xb", "(?:X|c)\\b"] } else { &["(?>X)", "(?=X)a", "(?!X)a", "(X)", "X", "(?>X)b", "Xb"] };
+    let quants: &[&str] = if full { &["{2}", "{1,2}", "{2,}", "*", "+", "?", "*?", "{2}?", "{1,2}?"] } else { &["{2}", "{1,2}", "*", "+", "?", "{2}?", "{1,2}?", "{2,}"] };
     let hards: &[&str] = if full { &["(?=a)", "(?>a)", "\\b", "(?!b)", "(?<=a)", "(a)"] } else { &["(?=a)", "(?>a)", "\\b", "(?!b)", "(?<=a)"] };
     let tails: &[&str] = if full { &["a?", "a*", "a*b?", "(?:a|ab)", "[ab]+?", "(?:ab|a)"] } else { &["a?", "a*b?", "(?:a|ab)", "(?:ab|a)"] };
     let mut out = Vec::new();
